@@ -190,6 +190,7 @@ pub fn cases(tier: &str) -> Vec<Case> {
         if thorough {
             v.push(Case { p, layer: Layer::Generic, reuse: false, n: 102_400, threads: 16 });
             v.push(Case { p, layer: Layer::Batteries, reuse: true, n: 102_400, threads: 16 });
+            v.push(Case { p, layer: Layer::Generic, reuse: true, n: 1_024_000, threads: 16 });
         }
     }
     v
@@ -219,4 +220,4 @@ pub fn replay(case: &Value) -> Report {
     r
 }
 
-pub const RULE: &str = "one case = a history of N builds (quick N=4096; thorough additionally N=102400 built concurrently from 16 threads) under one key with IDENTICAL claims, footer and assertion, for v1-v4 local x {GenericBuilder, PasetoBuilder with exp/iat/nbf pinned} x {fresh builder per build, one builder reused}; the nonce field of every token is extracted (32 bytes, v2: 24). Monitors: pairwise-distinct nonces and tokens, per-bit one-frequency within N/2 +- 5.3*sqrt(N), no constant byte position; the whole run is executed in two separate processes and the first 64 nonces of every history are compared across processes (fixed-seed PRNG). distinct_nontrivial = distinct (version, layer, builder mode, N, threads) histories that built >= 1000 tokens";
+pub const RULE: &str = "one case = a history of N builds (quick N=4096; thorough additionally N=102400 and N=1024000 built concurrently from 16 threads) under one key with IDENTICAL claims, footer and assertion, for v1-v4 local x {GenericBuilder, PasetoBuilder with exp/iat/nbf pinned} x {fresh builder per build, one builder reused}; the nonce field of every token is extracted (32 bytes, v2: 24). Monitors: pairwise-distinct nonces and tokens, per-bit one-frequency within N/2 +- 5.3*sqrt(N), no constant byte position; the whole run is executed in two separate processes and the first 64 nonces of every history are compared across processes (fixed-seed PRNG). distinct_nontrivial = distinct (version, layer, builder mode, N, threads) histories that built >= 1000 tokens";
